@@ -13,9 +13,9 @@ META = {
     "design_ref": "DESIGN.md §4 C16",
 }
 
-CONN_ACTIONS = ["Open", "RecvFrame", "RecvPartial", "RecvRest", "RecvShort", "RecvReply",
+CONN_ACTIONS = ["AcceptOk", "AcceptFail", "ConnClose", "RecvFrame", "RecvPartial", "RecvRest", "RecvShort", "RecvReply",
                 "PeerAbort", "Release", "Credit", "HalfTick", "CloseCmd", "Flush",
-                "TakeOne", "IdleTimeout", "Dispatch", "ReadShort", "ReadEof", "WriteOne",
+                "TakeOne", "IdleTimeout", "Dispatch", "ReadShort", "ReadEof", "WriteOne", "WritePartial",
                 "WriteTimeout", "WriteError", "Flushed", "ServiceYield", "Enqueue"]
 DGRAM_ACTIONS = ["DRecv", "DRecvShort", "DRecvReply", "DRelease", "DSend"]
 SIZE_DEVS = ["D_no_edns_uses_server_hint", "D_trunc_opt_over_limit"]
@@ -56,16 +56,22 @@ def run(ctx):
                   expect_violation="SomeTruncated", count=False, coverage=False)
     ctx.require_ok(vac, "truncation occurs in the enumerated space")
     # quick: pipelines <= 2, queue capacity 1 and 2, services single/stream2;
+    # (both with frames written in two pieces);
     # thorough: pipelines <= 3 (single) and pipelines <= 2 with all service
     # kinds (single, stream2, fail, txn), queue capacity 1 and 2
     for cfg in (["MC_ServerConn_thorough", "MC_ServerConn_kinds_thorough"] if thorough
                 else ["MC_ServerConn"]):
         mc = ctx.tlc("MC_ServerConn", cfg, workers=8, label="mc-conn-" + cfg, timeout=3000)
         ctx.require_ok(mc, cfg)
-        ctx.require_actions(mc, CONN_ACTIONS)
+        ctx.require_actions(mc, [a for a in CONN_ACTIONS
+                                 if not (a == "WritePartial" and cfg.endswith("kinds_thorough"))])
     mc = ctx.tlc("MC_ServerConn", "MC_ServerConn2" + suf, workers=8, label="mc-conn2",
                  timeout=3000)
     ctx.require_ok(mc, "MC_ServerConn2 (two connections)")
+    # accept path: failed setups, the connection limit, open/close cycles
+    mc = ctx.tlc("MC_ServerConn", "MC_ServerAccept", workers=8, label="mc-accept")
+    ctx.require_ok(mc, "MC_ServerAccept")
+    ctx.require_actions(mc, ["AcceptOk", "AcceptFail", "AcceptRefuse", "ConnClose"])
     mc = ctx.tlc("MC_ServerConn", "MC_ServerDgram", workers=4, label="mc-dgram")
     ctx.require_ok(mc, "MC_ServerDgram")
     ctx.require_actions(mc, DGRAM_ACTIONS)
@@ -133,6 +139,12 @@ def run(ctx):
                              "FAIL " in out)
                 break
     ctx.replay_cases("replay_server", beh, label="behaviours")
+    # Framed under partial writes: the same behaviours with a transport that
+    # accepts 1, 3 or 64 octets per write (what the peer sees at quiescence
+    # must not depend on how the transport chops the writes)
+    for ch in ([1, 2, 3, 64] if thorough else [1, 3, 64]):
+        ctx.replay_cases("replay_server", beh, args=["--chunk", str(ch)],
+                         label="behaviours-chunk%d" % ch)
 
     # ---- 4. I->S: hostile input, validated by TLC ----
     tcfg = "Trace_Server_D_queue_full_drop" if "D_queue_full_drop" in ctx.open_devs else "Trace_Server"
